@@ -19,8 +19,16 @@ def main():
                 for f in os.listdir(p):
                     if f.endswith(".tla"):
                         shutil.copy(os.path.join(p, f), d)
+        # modules for Apalache (spec/apalache) extend Apalache.tla, which ships with Apalache, not with tla2tools
+        apa = set(os.listdir(os.path.join(vlib.ROOT, "spec", "apalache"))) if os.path.isdir(os.path.join(vlib.ROOT, "spec", "apalache")) else set()
         mods = sorted(f for f in os.listdir(d) if f.endswith(".tla"))
         for f in mods:
+            if f in apa:
+                p = subprocess.run(["apalache-mc", "parse", "--out-dir=" + os.path.join(d, "_apa"), f], cwd=d, capture_output=True, text=True)
+                if p.returncode != 0:
+                    print("APALACHE PARSE FAILED", f, (p.stdout + p.stderr)[-800:])
+                    bad += 1
+                continue
             p = subprocess.run(["java", "-cp", vlib.JAR, "tla2sany.SANY", f], cwd=d, capture_output=True, text=True)
             if p.returncode != 0 or "*** Errors" in p.stdout or "Fatal" in p.stdout:
                 print("SANY FAILED", f, p.stdout[-800:])
